@@ -24,6 +24,39 @@ CLAIMS = {
         "DESIGN.md section 6, C14", TECH_KANI),
 }
 
+CLAIMS.update({
+    "C06": (
+        "Bounded solver verdict: for cmap subtables of formats 0, 4 (2 segments + 2-entry glyphIdArray; 3 + 4 in the thorough tier), "
+        "6, 10 (3 entries) and 12 (2 groups; 3 thorough) with EVERY value field symbolic, parsed by the real reader, map_glyph(ch) "
+        "equals the OpenType address arithmetic restated in the harness for every u32 ch (incl. idRangeOffset indexing, modulo-65536 "
+        "idDelta, zero entries, 16-bit glyph limit); mappings_fn enumerates exactly what single lookups return (formats 4, 6, 10, 12, "
+        "small widths); find_good_cmap_subtable follows the documented preference order over 3 symbolic encoding records; Mac Roman "
+        "conversions are mutual inverses for all 256 bytes and all chars; offset_to_index by MIR->SMT.",
+        "Outside: format 2 (beyond the panic-freedom in C01), more segments/groups than stated, Big5 (encoding_rs), the Symbol/Big5/AppleRoman "
+        "dispatch inside Font::lookup_glyph_index, the 0xFFFF idRangeOffset work-around. Oracles are my restatement of the OpenType cmap chapter.",
+        "DESIGN.md section 6, C06", TECH_KANI + "; " + TECH_SMT),
+    "C10": (
+        "Bounded solver verdict: for an sfnt with 2 table records (3 thorough), a TTC with 2 members at symbolic offsets, and a WOFF file "
+        "with 2 uncompressed directory entries (3 thorough), with every byte other than the record counts symbolic, table_data(tag) for "
+        "any u32 tag returns byte-for-byte the window the directory names (compared at a symbolic index), Ok(None)/has_table()==false for "
+        "absent tags, an error for windows outside the file, table_tags() lists the directory in order, sfnt_version/flavor are the "
+        "stored ones, a member index beyond the collection is BadIndex; FontData::read selects the container by magic (one harness per "
+        "known magic) and every unknown magic is rejected by each container reader.",
+        "Outside: zlib-compressed WOFF entries and both flate2 back ends (decompressor not encoded), WOFF metadata, directories with duplicate "
+        "tags, FontData::read with a symbolic magic (the WOFF2 arm drags brotli into the formula), DynamicFontTableProvider.",
+        "DESIGN.md section 6, C10", TECH_KANI),
+    "C11": (
+        "Bounded solver verdict on the DECOMPRESSED streams: 255UInt16 and UIntBase128 decode per the W3C definitions incl. all rejection "
+        "rules (any 4/6 bytes, any truncation); the table directory entry decoder maps every flag byte to the right tag (63-entry known-tag "
+        "table restated) and transformLength presence; the transformed-glyf decoder yields, for 1 glyph x 1 contour x 1 point and EVERY flag "
+        "byte and data byte of the 1-, 2- and 3-byte triplet classes (4-byte: thorough), exactly the dx/dy/on-curve the W3C triplet "
+        "arithmetic prescribes (this covers all 128 COORD_LUT rows); 2 points: cumulative coordinates, endPts, instructions, explicit vs "
+        "computed bounding box; transformed hmtx reconstruction for flags 0-3 with 2-3 glyphs.",
+        "Outside: brotli, Woff2Font::read, collections, the eager provider (HashMap), loca reconstruction, composite records, > 2 points, > 1 contour. "
+        "One open known finding (hmtx tail rebuilt from the wrong glyphs) is listed in known_findings.json.",
+        "DESIGN.md section 6, C11", TECH_KANI),
+})
+
 NOT_APPLICABLE = {
     "C08": "cmap subset builder sits behind BTreeMap<Character,u16> (MappingsToKeep): pipeline 40 min and hooked kernel 25 min/10 GB gave no solver answer; a hook that bypasses the map would no longer execute the real code (DESIGN.md section 6, C08)",
     "C12": "the only reachable evaluation kernel (ItemVariationStore::adjustment, f32 region scalars through iterator adaptors) gave no answer in 10-15 min even with a concrete region; instancer/IUP/CFF2 blends are behind BTreeMap/Vec pipelines (DESIGN.md section 6, C12)",
